@@ -81,7 +81,8 @@ def rule_map(chk: Check, model, cv: CompiledView, rid: str):
             us = [c for c in cv.run_supervisor.events if c.kind == "call" and len(c.args) == 5 and c.args[0] is not None and c.args[3] is not None and mentions(c.args[3], "tree_take")]
             ok = len(conds) == 1
             if ok:
-                pred = conds[0].term
+                from ..compiled import skip_condition
+                pred = skip_condition(conds[0].term)
                 uses = [c for c in cv.run_supervisor.events if c.kind == "call" and any(e.term in set(T.walk(a)) for a in c.args) and c is not e and c.name != "jax.lax.cond"]
                 ok = bool(uses) and all(e.term not in set(T.walk(T.assume(a, pred, False))) for c in uses for a in c.args) and mentions(pred, "step")
             chk.add(rid, f"reader: {where} (exception: no-op value under step == 0 only)", ok,
